@@ -106,7 +106,9 @@ def optimal_clone(
     # Q = ∑_{k=1}^N p_k |ψ_k ⊗ ψ_k ⊗ ψ_k> <ψ_k ⊗ ψ_k ⊗ ψ_k|
     q_a = np.zeros((dim, dim), dtype=complex)
     for k, state in enumerate(states):
-        q_a += probs[k] * tensor(state, state, state.conj()) @ tensor(state, state, state.conj()).conj().T
+        # The outer product is taken explicitly, so that kets given as 1-D arrays and as column vectors mean the same.
+        product_ket = tensor(state, state, state.conj())
+        q_a += probs[k] * np.outer(product_ket, product_ket.conj())
 
     # The system is over:
     # Y_1 ⊗ Z_1 ⊗ X_1, ... , Y_n ⊗ Z_n ⊗ X_n.
